@@ -72,6 +72,12 @@ func (c07) Gen(r *core.Rng, tier string, idx int) *core.Trace {
 	if t.Cfg["bs"] == 4096 && r.Chance(12) {
 		t.Cfg["manyfrags"] = r.Range(2150, 2600)
 	}
+	// many variable-length inodes (symlinks with targets of all lengths): inodes that straddle the 8 KiB
+	// metadata blocks of the inode table at every possible split point
+	t.Cfg["manylinks"] = 0
+	if r.Chance(15) {
+		t.Cfg["manylinks"] = r.Range(500, 900)
+	}
 	// one file of more than 4096 blocks: its block list alone spans three 8 KiB metadata blocks
 	t.Cfg["manyblocks"] = 0
 	if t.Cfg["bs"] == 4096 && r.Chance(25) {
@@ -143,6 +149,15 @@ func c07Tree(t *core.Trace, bs int64) []imgEntry {
 			data[k] = byte('a' + (k/97+k)%23) // compressible, position dependent
 		}
 		tree = append(tree, imgEntry{Path: "d/many-blocks.bin", Data: data})
+	}
+	if ml := t.I("manylinks"); ml > 0 {
+		if ml > 2000 {
+			ml = 2000
+		}
+		tree = append(tree, imgEntry{Path: "links", Dir: true})
+		for i := int64(0); i < ml; i++ {
+			tree = append(tree, imgEntry{Path: fmt.Sprintf("links/l%04d", i), Link: strings.Repeat("t", int((i*7+int64(tag%13))%61)+1)})
+		}
 	}
 	if mf := t.I("manyfrags"); mf > 0 && bs == 4096 {
 		if mf > 4000 {
